@@ -302,12 +302,10 @@ func (mT *provider) retainSearch(filter string, retained *[]*mqttp.Publish) {
 			return true
 		})
 	} else if strings.HasPrefix(level, "$") {
-		value, ok := mT.root.children.Load(level)
-		var n *node
-		if ok {
-			n = value.(*node)
+		// no node for this '$' level means nothing is retained below it
+		if value, ok := mT.root.children.Load(level); ok {
+			retainRecurseSearch(value.(*node), levels[1:], retained)
 		}
-		retainRecurseSearch(n, levels[1:], retained)
 	} else {
 		retainRecurseSearch(mT.root, levels, retained)
 	}
